@@ -142,6 +142,37 @@ def eval_case(case):
             save_doc(d, p)
             fails += check_package(p, psrc, f"document with lagging object counter ({os.path.basename(path)})")
             npk += 1
+        elif kind == "shared":
+            # two documents open in the same process that are given the SAME Style / BackgroundImage / Border objects
+            from numbers_parser import RGB, BackgroundImage, Border, Document, Style
+
+            with open(os.path.join(FIXTURES, "cat.jpg"), "rb") as f:
+                img = BackgroundImage(f.read(), "cat.jpg")
+            border = Border(2.0, RGB(1, 2, 3), "solid")
+            docs = [Document(num_rows=3, num_cols=3), Document(num_rows=3, num_cols=3)]
+            order = case[1]
+            for i in ([0, 1] if order == "ab" else [1, 0]):
+                d = docs[i]
+                st = d.add_style(name="Shared", bg_image=img, bold=True)
+                t = d.sheets[0].tables[0]
+                t.write(1, 1, "img", style=st)
+                t.set_cell_border(1, 1, "top", border)
+                cf = d.add_custom_format(name="CF", type="number", num_decimals=1)
+                t.write(2, 2, 1.25)
+                t.set_cell_formatting(2, 2, "custom", format=cf)
+            for i, d in enumerate(docs):
+                p = _tmp(f"shared{i}")
+                tmp.append(p)
+                save_doc(d, p)
+                fails += check_package(p, TEMPLATE, f"document {i} of two sharing style/image/border objects (order {order})")
+                npk += 1
+                d2, _ = open_doc(p)
+                try:
+                    bi = d2.sheets[0].tables[0].cell(1, 1).style.bg_image
+                    if bi is None or bi.filename != "cat.jpg":
+                        fails.append(({"mechanism": "reopen", "class": "shared-image-lost"}, f"document {i} (order {order}): background image reads {bi!r}"))
+                except Exception as e:  # noqa: BLE001
+                    fails.append(({"mechanism": "reopen", "class": f"shared-image-raised-{type(e).__name__}"}, f"document {i} (order {order}): reading the background image raised {type(e).__name__}"))
         elif kind == "resize":
             # the same open document saved, resized across a tile boundary, and saved again
             _, nr, nc, axis, delta = case
@@ -266,6 +297,7 @@ def cases(tier):
     for nr, nc, axis, delta in [(300, 2, "row", -100), (257, 2, "row", -1), (257, 2, "row", -2), (256, 2, "row", 1), (255, 2, "row", 2), (513, 2, "row", -300),
                                 (2, 300, "col", -100), (2, 257, "col", -2), (2, 255, "col", 2)]:
         cs.append(["resize", nr, nc, axis, delta])
+    cs += [["shared", "ab"], ["shared", "ba"]]
     rows = [1, 255, 256, 257, 512, 513]
     cols = [1, 256, 257, 1000]
     for nr in rows:
